@@ -21,3 +21,12 @@ kernel_proof! {
         kani::cover!(v > 20, "selftest: unsatisfiable cover");
     }
 }
+
+kernel_proof! {
+    fn selftest_array_any() {
+        let b: [u8; 3] = kani::any();
+        let w: [u16; 2] = kani::any();
+        let f: bool = kani::any();
+        assert!(!(b[0] == 7 && b[2] == 9 && w[1] == 0x1234 && f), "selftest: array failure");
+    }
+}
